@@ -666,6 +666,20 @@ def r8_require(ctx):
     gen = [p["name"] for p in (fn.generics or {}).get("params", []) if p.get("kind") != "lifetime"]
     ctx.check(not bad, "C03.R8", fn.key, "missing-is-error", "state contains the required type: %s -> require() yields %s (Ok iff present is required)" % (bad[0] if bad else ("", "")), loc=fn.loc())
     ctx.check(bool(asked) and all(a == "T" for a in asked), "C03.R8", fn.key, "contains-T", "require::<_, T> does not test the presence of T (asks for %s)" % sorted(set(map(str, asked))), loc=fn.loc())
+    # visibility through scopes: with the REAL registry code on a three-scope chain, require is Ok iff any enclosing scope holds T
+    import c01
+    from collmodel import install as _cm_install
+    reg_idx = F.field_index("mahf::state::State", "registry")
+    for placement, holders in c01.HOLDERS.items():
+        scopes, holder, oracle = c01.scope_model(F, placement)
+        st = Sym("state", {reg_idx: scopes["self"]})
+        req = Agg("adt", "mahf::state::require::StateReq", None, [st])
+        it = _cm_install(Interp(fn.body, oracle, [req], facts=F, inline=lambda k: k.startswith("mahf::state::") or k.startswith("<mahf::state::"), max_visits=6))
+        outs = {(p.end, p.ret.variant if isinstance(p.ret, Agg) else None) for p in it.run()}
+        want = {("return", "Ok" if holders else "Err")}
+        ctx.check(outs == want, "C03.R8", fn.key, "sees-every-enclosing-scope:" + placement,
+                  "with T %s in the chain scope -> parent -> grandparent, require() yields %s (expected %s: a requirement is met by state of any enclosing scope)"
+                  % (c01.PLACEMENT_TEXT[placement], sorted(map(str, outs)), sorted(want)), loc=fn.loc())
 
 
 def run(ctx):
@@ -708,28 +722,11 @@ def r9_program_semantics(ctx):
                 if size >= 4 and ctx.tier != "thorough":
                     faults = faults[:1] + faults[1::3]
                 for fault in faults:
-                    ref = progsem.Ref_(script, fault)
-                    want_res = ref.run(t)
-                    paths = progsem.run_real(F, t, script, fault)
                     n_run += 1
                     label = (progsem.show(t), {k: v for k, v in script.items()}, fault)
-                    if len(paths) != 1:
-                        bad.append(label + ("is not decided: %d paths (%s)" % (len(paths), sorted({p.end for p in paths})),))
-                        continue
-                    p = paths[0]
-                    if p.end == "limit":
-                        bad.append(label + ("is not decided: the evaluation bound was reached",))
-                        continue
-                    got_res = p.ret.variant if (p.end == "return" and hasattr(p.ret, "variant")) else p.end
-                    got = list(p.mstate.get("trace", ()))
-                    if got != ref.trace:
-                        k = next((i for i, (a, b) in enumerate(zip(got, ref.trace)) if a != b), min(len(got), len(ref.trace)))
-                        bad.append(label + ("diverges from the structured program at step %d: real code does %s, the structured program does %s (phase, node, scope level, visible loop counter)"
-                                            % (k, got[k] if k < len(got) else "nothing more", ref.trace[k] if k < len(ref.trace) else "nothing more"),))
-                    elif got_res != want_res:
-                        bad.append(label + ("returns %s, the structured program ends with %s" % (got_res, want_res),))
-                    elif p.mstate.get("open", 0) != 0:
-                        bad.append(label + ("leaves %d scope(s) open" % p.mstate.get("open", 0),))
+                    why = progsem.compare(F, t, script, fault)
+                    if why:
+                        bad.append(label + (why,))
                     if len(bad) > 5:
                         break
                 if len(bad) > 5:
